@@ -86,6 +86,8 @@ fn gen_items(rng: &mut Rng, n: usize, consts: bool, datetime: bool) -> Vec<GItem
         if !is_const {
             types.push(nm.clone());
         }
+        // a quarter of the items carry the attribute by its path; after a split a file may hold only such items
+        let text = if rng.chance(1, 4) { text.replacen("#[typeshare]", "#[typeshare::typeshare]", 1) } else { text };
         out.push(GItem { text, name: nm, is_const });
     }
     out
@@ -554,7 +556,7 @@ pub fn run(ctx: &Ctx) -> (Spec, Report) {
     }
     let spec = Spec {
         level: "exploration",
-        rule: "real hooked binary on generated trees (structs, enums, aliases, consts over k files in several directories/crates, cross-file references): every permutation of arrival order for k <= 5 (quick) / 6 (thorough) via TYPESHARE_VERIF_ORDER, seeded permutations for k = 8/12/24, thread counts 1..16 x injected per-path delays (distinct delivered orders counted from the hook log), repeated processes for fresh hash seeds incl. a name defined in two other crates behind a re-export, and 5 re-splits of the same items; single- and multi-file mode, 6 languages; oracle = byte equality with the first run; thorough adds ThreadSanitizer and Miri (many-seeds) runs of the CLI; distinct = (workload, language, mode, more-than-one-order-observed)".into(),
+        rule: "real hooked binary on generated trees (structs, enums, aliases, consts, a quarter of them annotated as #[typeshare::typeshare], over k files in several directories/crates, cross-file references): every permutation of arrival order for k <= 5 (quick) / 6 (thorough) via TYPESHARE_VERIF_ORDER, seeded permutations for k = 8/12/24, thread counts 1..16 x injected per-path delays (distinct delivered orders counted from the hook log), repeated processes for fresh hash seeds incl. a name defined in two other crates behind a re-export, and 5 re-splits of the same items; single- and multi-file mode, 6 languages; oracle = byte equality with the first run; thorough adds ThreadSanitizer and Miri (many-seeds) runs of the CLI; distinct = (workload, language, mode, more-than-one-order-observed)".into(),
         assumptions: vec![
             "the collector hook delivers exactly the permutation requested (its log is read back)".into(),
             "same-named items in one single-file run are outside the domain (the output would define a name twice)".into(),
